@@ -62,8 +62,9 @@ type c14Case struct {
 	Wrapped    bool   `json:",omitempty"` // forward: the handler adds context to its status error with %w
 	RespToo    bool   `json:",omitempty"` // forward: the failing handler returns a response value next to its error
 	MDOpts     bool   `json:",omitempty"` // forward: the caller asks for response metadata (grpc.Header and grpc.Trailer call options)
+	KnownLen   bool   `json:",omitempty"` // forward: the reply reaches the client with its Content-Length known (what a real server does for a short body)
 	CutErrBody bool   `json:",omitempty"` // forward: the body of an error reply breaks off half-way (the code travels in the head)
-	Renderer   string // "default" | "nothing" | "teapot" | "option-default"
+	Renderer   string // "default" | "nothing" | "teapot" | "option-default" | "ok-text" | "ok-empty-proto" | "no-content"
 	Carrier    string // "server" | "mux"
 	HTTP       int    // fallback: HTTP status
 	Stream     bool   // fallback: through NewStream instead of Invoke
@@ -130,6 +131,21 @@ func c14Renderer(name string) []httpgrpc.HandlerOption {
 		})}
 	case "option-default":
 		return []httpgrpc.HandlerOption{httpgrpc.ErrorRenderer(httpgrpc.DefaultErrorRenderer)}
+	case "ok-text":
+		// "always 200, the error is in the body": the status stays 200 and a body is written
+		return []httpgrpc.HandlerOption{httpgrpc.ErrorRenderer(func(_ context.Context, st *status.Status, w http.ResponseWriter) {
+			fmt.Fprintf(w, "{\"error\":%q}\n", st.Message())
+		})}
+	case "ok-empty-proto":
+		// an explicit 200 whose body is, by accident, a decodable message
+		return []httpgrpc.HandlerOption{httpgrpc.ErrorRenderer(func(_ context.Context, _ *status.Status, w http.ResponseWriter) {
+			w.WriteHeader(200)
+			w.Write([]byte{0x0a, 0x01, 'x'})
+		})}
+	case "no-content":
+		return []httpgrpc.HandlerOption{httpgrpc.ErrorRenderer(func(_ context.Context, _ *status.Status, w http.ResponseWriter) {
+			w.WriteHeader(204)
+		})}
 	}
 	return nil
 }
@@ -261,6 +277,9 @@ func c14Forward(c c14Case, o *Outcome) *Outcome {
 			if c.CutErrBody && c.Code != 0 && len(body) > 0 {
 				// the error reply's body does not complete (connection cut, a slow error page): the status came in the head
 				rr.Body = bodyReader(body[:len(body)/2], true)
+			}
+			if c.KnownLen && !(c.CutErrBody && c.Code != 0) {
+				rr.ContentLength = int64(len(body))
 			}
 			rr.Request = r
 			return &rr, nil
@@ -470,9 +489,10 @@ func c14Enumerate() []c14Case {
 	var cs []c14Case
 	for _, code := range c14Codes {
 		for _, canc := range []bool{false, true} {
-			for _, r := range []string{"default", "nothing", "teapot", "option-default"} {
+			for _, r := range []string{"default", "nothing", "teapot", "option-default", "ok-text", "ok-empty-proto", "no-content"} {
 				for _, car := range []string{"server", "mux"} {
 					cs = append(cs, c14Case{Mode: "forward", Code: code, Msg: "m", Cancelled: canc, Renderer: r, Carrier: car})
+					cs = append(cs, c14Case{Mode: "forward", Code: code, Msg: "m", Cancelled: canc, Renderer: r, Carrier: car, KnownLen: true})
 					if !canc {
 						cs = append(cs, c14Case{Mode: "forward", Code: code, Msg: "", Cancelled: canc, Renderer: r, Carrier: car})
 					}
@@ -541,7 +561,7 @@ func genC14(t *rapid.T) c14Case {
 	}
 	if rapid.IntRange(0, 29).Draw(t, "sequence") == 0 {
 		return c14Case{Mode: "sequence", Seq: rapid.SliceOfN(rapid.Uint32Range(0, 16), 2, 6).Draw(t, "seq"), MaxConns: rapid.SampledFrom([]int{0, 1, 1, 2}).Draw(t, "maxconns"),
-			Renderer: rapid.SampledFrom([]string{"default", "default", "teapot"}).Draw(t, "seqrenderer"), Carrier: rapid.SampledFrom([]string{"server", "mux"}).Draw(t, "seqcarrier")}
+			Renderer: rapid.SampledFrom([]string{"default", "default", "teapot", "ok-text"}).Draw(t, "seqrenderer"), Carrier: rapid.SampledFrom([]string{"server", "mux"}).Draw(t, "seqcarrier")}
 	}
 	if rapid.IntRange(0, 3).Draw(t, "mode") == 0 {
 		return c14Case{Mode: "fallback", HTTP: rapid.IntRange(100, 599).Draw(t, "http"), Stream: rapid.Bool().Draw(t, "stream"),
@@ -554,18 +574,19 @@ func genC14(t *rapid.T) c14Case {
 			// becomes of such a message in an HTTP header is C02's subject, the code has to come through all the same
 			rapid.SampledFrom([]string{"line1\nline2", "a\r\nb", "tab\there", "first: bad\nsecond: worse\n", "\"quoted\"", "back\\slash"})).Draw(t, "msg"),
 		Cancelled:  rapid.Bool().Draw(t, "cancelled"),
-		Renderer:   rapid.SampledFrom([]string{"default", "nothing", "teapot", "option-default"}).Draw(t, "renderer"),
+		Renderer:   rapid.SampledFrom([]string{"default", "nothing", "teapot", "option-default", "ok-text", "ok-empty-proto", "no-content"}).Draw(t, "renderer"),
 		Carrier:    rapid.SampledFrom([]string{"server", "mux"}).Draw(t, "carrier"),
 		Timeout:    rapid.SampledFrom([]string{"", "", "1n", "0m", "1H"}).Draw(t, "timeout"),
 		Wrapped:    rapid.IntRange(0, 3).Draw(t, "wrapped") == 0,
 		CutErrBody: rapid.IntRange(0, 3).Draw(t, "cuterrbody") == 0,
 		MDOpts:     rapid.IntRange(0, 2).Draw(t, "mdopts") == 0,
+		KnownLen:   rapid.Bool().Draw(t, "knownlen"),
 		RespToo:    rapid.IntRange(0, 2).Draw(t, "resptoo") == 0}
 }
 
 func init() { registerReplay("C14", propC14) }
 
-const c14Rule = "exhaustive grid {25 gRPC codes incl. out-of-range} x {request ctx cancelled or not} x {4 renderers} x {Server, HandleServices} (forward: HTTP status by documented table + client recovers exact code) " +
+const c14Rule = "exhaustive grid {25 gRPC codes incl. out-of-range} x {request ctx cancelled or not} x {7 renderers: default, via option, silent, 418 page, 200 with a text body, 200 with a decodable body, 204} x {Server, HandleServices} (forward: HTTP status by documented table + client recovers exact code) " +
 	"and every HTTP status 100..599 x {Invoke, NewStream} x {empty, text body} without X-GRPC-Status (fallback: OK iff 2xx), plus rapid-drawn codes over all of uint32 with drawn messages; " +
 	"and arbitrary unary replies (HTTP status x X-GRPC-Status present/absent/well-formed/garbage x details headers x content types x bodies: encoded messages whole or cut, random bytes, proxy texts) through a replaying RoundTripper (reply mode; also FuzzUnaryReply in the thorough tier): well-formed non-OK header => exactly that code and message, no header => OK iff 2xx, non-2xx never success, derived OK => success iff the body decodes and then the caller's message is the decoding of the body, never a panic; " +
 	"also generated since the seeded rounds: empty status messages, GRPC-Timeout on the request, wrapped status errors, grpc.Header/grpc.Trailer call options on the recovering client, failing handlers that return a response next to their error; " +
